@@ -349,6 +349,17 @@ LAZY_BUILTINS = [
     ("std.length(std.filterMap(function(x) true, function(x) error 'dead', [1, 2]))", 2.0),
     ("local f(a, b) = a; f(b=error 'dead', a=1)", 1.0),
     ("local f(a=error 'dead', b=1) = b; f()", 1.0),
+    # the same laziness whatever the kind of container the builtin walks: strings and objects, not only arrays
+    ("std.length(std.map(function(c) error 'dead', 'ab'))", 2.0),
+    ("std.map(function(c) std.trace('once', c), 'abc')[2] + ''", "c"),
+    ("std.length(std.mapWithIndex(function(i, c) error 'dead', 'ab'))", 2.0),
+    ("std.length(std.makeArray(2, function(i) error 'dead'))", 2.0),
+    ("std.length(std.flatMap(function(c) [error 'dead'], [1, 2]))", 2.0),
+    ("std.objectFields(std.mapWithKey(function(k, v) error 'dead', {a: 1}))", ["a"]),
+    ("std.length(std.objectValues(std.mapWithKey(function(k, v) error 'dead', {a: 1, b: 2})))", 2.0),
+    ("std.map(function(x) x, [1, error 'dead'])[0]", 1.0),
+    ("std.length(std.map(function(o) o.nope, [{}, {}]))", 2.0),
+    ("std.length(std.map(std.parseInt, ['x', 'y']))", 2.0),
     ("[std.trace('once', 1) for x in [0]][0] + 0", 1.0),
     ("local a = [std.trace('once', 1)]; [x for x in a] + a", [1.0, 1.0]),
 ]
